@@ -3,6 +3,7 @@ package main
 import (
 	"fmt"
 	"go/token"
+	"go/types"
 	"strings"
 
 	"golang.org/x/tools/go/ssa"
@@ -64,6 +65,10 @@ func dencoStructural(c *Ctx, r2, r3, r4, r5 string) {
 	bld := p.Fn("(*rt/middleware/denco.doubleArray).build")
 	sorts := callsIn(bld, "sort.Stable", "sort.Sort", "sort.SliceStable", "sort.Slice", "slices.SortFunc", "slices.SortStableFunc")
 	arr := callsIn(bld, "(*rt/middleware/denco.doubleArray).arrange")
+	if len(arr) == 0 {
+		// (arrange inlined into build: its first step — grouping the records into siblings — is what the sort has to precede)
+		arr = callsIn(bld, "rt/middleware/denco.makeSiblings")
+	}
 	okSort := len(sorts) >= 1 && len(arr) == 1
 	if okSort {
 		okSort = false
@@ -200,13 +205,39 @@ func dencoStructural(c *Ctx, r2, r3, r4, r5 string) {
 		}
 	}
 	fb := p.Fn("(*rt/middleware/denco.doubleArray).findBase")
-	used := fb.Params[3]
-	isUsed := func(v ssa.Value) bool {
-		if v == ssa.Value(used) {
-			return true
+	// (the set of bases handed out: a map parameter of findBase, or — when it was made part of the array under
+	// construction — a map-typed field of doubleArray)
+	var used *ssa.Parameter
+	for _, prm := range fb.Params {
+		if _, isMap := prm.Type().Underlying().(*types.Map); isMap {
+			used = prm
 		}
-		ok, _ := allOrigins(v, oIsValue(used)) // (the set handed to an add / has helper of a named set type)
-		return ok
+	}
+	isUsed := func(v ssa.Value) bool {
+		if used != nil {
+			if v == ssa.Value(used) {
+				return true
+			}
+			ok, _ := allOrigins(v, oIsValue(used)) // (the set handed to an add / has helper of a named set type)
+			return ok
+		}
+		if _, isMap := v.Type().Underlying().(*types.Map); !isMap {
+			return false
+		}
+		for _, o := range originsOf(v) {
+			ad, isLd := derefLoad(o.V)
+			if !isLd {
+				return false
+			}
+			fa, isFA := ad.(*ssa.FieldAddr)
+			if !isFA {
+				return false
+			}
+			if n, _ := structOf(fa.X.Type()); n == nil || typeFullName(n) != "rt/middleware/denco.doubleArray" {
+				return false
+			}
+		}
+		return true
 	}
 	isReserve := func(in ssa.Instruction) bool {
 		mu, ok := in.(*ssa.MapUpdate)
